@@ -40,6 +40,18 @@ CLAIMED["C07"] = dict(
          "argument in DESIGN.md C07.",
     note="Assumes mutual neighbour tables (A1), the container guarantees of C08 and a fair OpenMP runtime; trusted base: clang, AST export, the extractor.")
 
+CLAIMED["C11"] = dict(
+    level="proof", design="3/C11",
+    technique="static analysis: decision-tree extraction of the loop-free solver code (forward substitution, callee inlining at the "
+              "real call sites) and computer-algebra proof of the wave relations for every leaf",
+    text="Proves, as identities over all real inputs (gamma>1, positive states), that the formulas coded in the exact solver are the "
+         "right ones: Newton derivative = derivative of the pressure function as called from solve(); arms continuous at P*=P; star "
+         "velocity consistent with the pressure equation; Rankine-Hugoniot conditions for shock leaves with the coded shock speed; "
+         "isentropy, characteristic and Riemann invariant for every fan leaf (vacuum fans included); regimes delimited by the wave "
+         "speeds and continuous at fan head/tail/vacuum front. Convergence of the iteration and agreement with a reference solver are "
+         "numeric and not decided.",
+    note="Trusted: clang, AST export, sympy normal forms, real-arithmetic idealisation; premise a^2 = gamma P/rho as computed by solve().")
+
 NOT_APPLICABLE = {
     "C13": "Equality with the RANLUX sequence, range [0,1) and byte-identical snapshots are facts about computed 48-bit arithmetic and library I/O; no sound static domain or on-disk reference to validate against. Its one structural clause (generator state fully dumped/restored) is decided under C09.",
     "C15": "Validity of a Voronoi tessellation and agreement of two constructions quantify over real generator sets; correctness rests on geometric predicates and flip sequences whose outcomes are runtime values; no clause has its truth in the shape of the code.",
